@@ -35,8 +35,10 @@ LEVEL_TEXT = ("Theorems for all inputs (32, all closed under the global context)
               "assigned name in the middle of a chain, name bound again later) is refuted by three witnesses. "
               "The models are tied to the code by exhaustive hierarchies (N<=5 quick, N<=6 thorough, <=3 ordered bases), random hierarchies with "
               "members across modules, packages generated as source with 8 import styles x subscripts x assignment aliases x Generic[T]/object "
-              "bases x holder classes x alias members over module names that extend each other and nested packages -- each loaded by the visitor AND "
-              "by the inspector and compared with the model, the real import and type() --, alias mazes (cyclic / dangling imports), cyclic and "
+              "bases x holder classes (also derived from each other, with nested classes named like module-level ones) x alias members over module "
+              "names that extend each other and nested packages -- each checked on the visited tree, on the tree reloaded from its JSON dump (base and "
+              "full), on the tree merged with .pyi stubs that list other bases, and on the inspected tree, against the model, the real import and "
+              "type() --, alias mazes (cyclic / dangling imports), cyclic and "
               "arbitrary tables, load histories, and raw list-of-lists merges.")
 LEVEL_NOTE = ("Trusted: Coq kernel, extraction, the abstractions in this module (table <-> Griffe objects / source; program specification -> source "
               "files + heap of objects, validated on every program by the real import's __bases__/__mro__ and by Griffe's own resolved_bases), "
@@ -69,8 +71,11 @@ RULE = ("(1) every hierarchy of N<=5 (quick) / N<=6 (thorough) classes where cla
         "__init__, wildcard) or by its local / holder-qualified name, optionally through 1-2 assignment aliases (plain -- followed since 3a123f9 --, or one "
         "of the residual shapes: subscripted value, alias in the middle of the chain, name bound again after the class), optionally subscripted "
         "([int] / [T]) when the base is generic; Generic[T] / typing.Generic[T] (last, rarely elsewhere) and explicit object (last, rarely first) bases; members "
-        "own or imported into the class body; each program is checked class by class for the visitor tree and for the inspector tree "
-        "(force_inspection) against the model, the real import and type(); corpus/C07/programs.json first; "
+        "own or imported into the class body; 30% of the programs end with a scope puzzle (a module-level class R, a holder HA with a nested class "
+        "also named R, a holder HB(HA) whose nested class derives from the bare name R, a sibling deriving from that one by its bare name), 35% come "
+        "with .pyi files next to their modules whose class statements drop a base or reorder the bases; each program is checked class by class on "
+        "FOUR trees -- freshly visited, dumped with as_json (base and full) and reloaded with from_json into a fresh collection, visited and merged "
+        "with the stubs, inspected (force_inspection) -- against the model, the real import and type(); corpus/C07/programs.json first; "
         "(9) alias mazes: 3 modules whose names are bound by random import-from chains incl. cycles, self-imports, dangling and out-of-package "
         "targets, module aliases and assignments, classes deriving through them (model vs Griffe, never raises / hangs). "
         "non-trivial = the class has >=2 bases, or is uncomputable, or inherits a member; distinct by canonical case value. A failing input is "
@@ -87,8 +92,8 @@ ASSUMPTIONS = ["items merged by c3linear_merge are Class objects, always truthy 
                "a class is identified by its path (Class._mro's `seen` holds paths); tables never contain two classes with one path",
                "C07_mro_eq_cpython, C07_all_members_eq_getattr and C07_hidden_last_only are stated for ordered tables (every base created before the class): the "
                "hierarchies Python source can express; for other acyclic tables the equality is checked by (C)+(O) only",
-               "generated programs bind each name once and before use, except the deliberate rebinding shape of C07-F2 (flow-insensitive scopes); classes nested at most one level (Object.resolve leaking through "
-               "several enclosing classes is C04's finding); base expressions are names, attribute chains and subscripts of those (calls, conditional "
+               "generated programs bind each name once and before use, except the deliberate rebinding shape of C07-F2 (flow-insensitive scopes); classes nested at most one level (the model of Object.resolve follows the rule repaired for C04: from a class scope the enclosing class "
+               "bodies are skipped); a nested class named like a module-level class is the last statement of its holder and no sibling derives from that name; base expressions are names, attribute chains and subscripts of those (calls, conditional "
                "expressions and bases inherited as attributes of another class -- `class C(Sub.Inner)` with Inner defined in a base of Sub -- are not generated)",
                "attr_leaf: an attribute has no members in the collection (hypothesis of the soundness theorems; true of every tree the agents build)",
                "inspected trees: dunder members (__dict__, __orig_bases__, ...) are left out of the member comparison; which members the inspector creates is C17's subject"]
@@ -1176,7 +1181,30 @@ def gen_program(rng, tag, gaps=True):
             amembers = [rng.choice(members)]
         classes.append({"mod": mod_of[i], "holder": holder, "bases": specs, "generic": generic, "object": obj,
                         "members": members, "amembers": amembers})
-    return {"pkg": f"c07g{tag}", "mods": names, "classes": classes}
+    if rng.random() < 0.3:
+        # a scope puzzle at the end of the last module: a module-level class R, a holder HA with a nested class that is ALSO
+        # named R, a holder HB(HA) with a nested class deriving from the bare name R.  Python: the module's R (a class body sees
+        # the names bound in it, then the module -- never what the enclosing class inherits, never an enclosing class body).
+        j = len(names) - 1
+        def spec(b):
+            return {"b": b, "style": rng.choice(XSTYLES2), "sub": None, "assign": 0, "form": "plain"}
+        def plain(mod, holder, bases, **kw):
+            return {"mod": mod, "holder": holder, "bases": bases, "generic": None, "object": None,
+                    "members": random_members(rng), "amembers": [], **kw}
+        k = len(classes)
+        earlier = list(range(k))
+        classes.append(plain(j, None, [spec(b) for b in rng.sample(earlier, min(len(earlier), rng.choice([0, 1, 1, 2])))]))          # R = k
+        classes.append(plain(j, hid, [spec(b) for b in rng.sample(earlier, min(len(earlier), rng.choice([0, 1, 1])))], shadow=k))    # HA.R
+        more = [spec(b) for b in rng.sample(earlier, min(len(earlier), rng.choice([0, 0, 1])))]
+        bs = [spec(k)] + more if rng.random() < 0.6 else more + [spec(k)]
+        classes.append(plain(j, hid + 1, bs, hbase=hid))                                                                            # HB(HA).K(R)
+        if rng.random() < 0.5:
+            classes.append(plain(j, hid + 1, [spec(k + 2)] + ([spec(k + 1)] if rng.random() < 0.3 else []), hbase=hid))               # a sibling deriving from it by its bare name
+    prog = {"pkg": f"c07g{tag}", "mods": names, "classes": classes}
+    if rng.random() < 0.35:
+        # .pyi files next to the modules: same classes, but the stubs simplify the hierarchy (a base left out, bases reordered)
+        prog["stubs"] = [rng.choice(["drop-first", "drop-last", "reverse", "same"]) for _ in classes]
+    return prog
 
 
 def norm_holders(classes):
@@ -1224,8 +1252,18 @@ def render_program(prog):
     subs = []
     for c in classes:
         subs.append(c.get("generic") is not None or any(b.get("sub") == "T" and subs[b["b"]] for b in c["bases"]))
+    # a nested class may carry the name of a module-level class of its module (`shadow`): only as the last class of its holder, when
+    # that class stands before the holder, and when neither it nor a sibling derives from that class (Griffe's scopes are flow-insensitive)
+    cname = []
+    for i, c in enumerate(classes):
+        r = c.get("shadow")
+        ok = r is not None and c["holder"] is not None and 0 <= r < i and classes[r]["mod"] == c["mod"] and classes[r]["holder"] is None
+        if ok:
+            run = [x for x in range(n) if classes[x]["mod"] == c["mod"] and classes[x]["holder"] == c["holder"]]
+            ok = run[-1] == i and r < run[0] and not any(bb["b"] == r for x in run for bb in classes[x]["bases"])
+        cname.append(f"K{r}" if ok else f"K{i}")
     top = [f"H{c['holder']}" if c["holder"] is not None else f"K{i}" for i, c in enumerate(classes)]
-    cpath = [P[c["mod"]] + ([f"H{c['holder']}"] if c["holder"] is not None else []) + [f"K{i}"] for i, c in enumerate(classes)]
+    cpath = [P[c["mod"]] + ([f"H{c['holder']}"] if c["holder"] is not None else []) + [cname[i]] for i, c in enumerate(classes)]
     heap_mod = {j: [] for j in range(len(mods))}       # explicit entries of module j, in first-match order
     heap_by_mod = {}
     patch = []                                          # bindings current when a class statement ran, where the final one differs
@@ -1292,6 +1330,7 @@ def render_program(prog):
         raise ValueError(style)
 
     open_holder = {}
+    holders_done = set()
     for i, c in enumerate(classes):
         j = c["mod"]
         pre = []                                        # module-level assignment lines standing before the class (or its holder)
@@ -1302,13 +1341,13 @@ def render_program(prog):
             b = spec["b"]
             if classes[b]["mod"] == j:
                 if classes[b]["holder"] is None or classes[b]["holder"] == c["holder"]:
-                    parts = [f"K{b}"]
+                    parts = [cname[b]]
                 else:
-                    parts = [top[b], f"K{b}"]
+                    parts = [top[b], cname[b]]
                 st = "same-module" + ("/holder" if classes[b]["holder"] is not None else "")
             else:
                 head, st = head_for(j, b, spec["style"])
-                parts = head + ([f"K{b}"] if classes[b]["holder"] is not None else [])
+                parts = head + ([cname[b]] if classes[b]["holder"] is not None else [])
                 if classes[b]["holder"] is not None:
                     st += "/nested"
             text, bx = ".".join(parts), _bx(parts)
@@ -1381,10 +1420,17 @@ def render_program(prog):
         ind = "    " if nested else ""
         lines = []
         if nested and open_holder.get(j) != c["holder"]:
-            lines.append(f"class H{c['holder']}:")
+            hb = c.get("hbase")
+            hb_ok = hb is not None and hb != c["holder"] and (j, hb) in holders_done
+            lines.append(f"class H{c['holder']}(H{hb}):" if hb_ok else f"class H{c['holder']}:")
             heap_mod[j].append([P[j] + [f"H{c['holder']}"], ["obj"]])
+            holders_done.add((j, c["holder"]))
+            if hb_ok:
+                styles.append("holder-with-base")
         open_holder[j] = c["holder"]
-        lines.append(f"{ind}class K{i}({', '.join(texts)}):" if texts else f"{ind}class K{i}:")
+        if cname[i] != f"K{i}":
+            styles.append("nested-class-named-like-a-module-level-class")
+        lines.append(f"{ind}class {cname[i]}({', '.join(texts)}):" if texts else f"{ind}class {cname[i]}:")
         heap_mod[j].append([cpath[i], ["cls", i]])
         malias = []
         for name in c["members"]:
@@ -1540,7 +1586,7 @@ def gap_F1(pb, orc, c):
     return False
 
 
-def eval_program(ctx, prog, root, mout, inspected=True, stream="program"):
+def eval_program(ctx, prog, root, mout, inspected=True, stream="program", trees=("visitor", "json", "stubs", "inspector")):
     """One generated program: static load (and inspected load) against the real classes; mout = the model's rows (or None).
     Returns the list of (case, detail, finding) disagreements between Griffe and CPython."""
     import griffe
@@ -1615,52 +1661,166 @@ def eval_program(ctx, prog, root, mout, inspected=True, stream="program"):
         return [({**base_case, "class": 0}, {"what": "griffe.load raised on a valid generated package", "griffe": f"{type(e).__name__}: {e}"}, None)]
     gtable = [[paths[i], [], members[i]] for i in range(n)]
     amember = [{a[0]: ".".join(a[1]) for a in x[4]} for x in R["xclasses"]]
-    for c in range(n):
-        case = {**base_case, "class": c, "agent": "visitor"}
-        obs = observe2(objs[c])
-        o = orc[c]
-        vis = None if o is None else {"mro": [i for i in o["mro"] if i < n], "attrs": o["attrs"]}
-        details = direct_eval(gtable, c, obs, vis)
-        if not details and o is not None and "inherited_final" in obs:
-            want_final = sorted([name, amember[owner].get(name, f"{paths[owner]}.{name}")] for name, owner in o["attrs"].items() if name not in members[c])
-            if obs["inherited_final"] != want_final:
-                details.append({"what": "an inherited alias does not finally lead to the object CPython finds", "griffe": obs["inherited_final"], "cpython": want_final})
-        if "resolved_exc" in obs:
-            details.append({"what": "resolved_bases raised", "griffe": obs["resolved_exc"]})
-        ctx.evaluations += 0
-        nontrivial = len(pb[c]) >= 2 or obs["mro"][0] != "ok" or bool(obs.get("inherited"))
-        ctx.case({"stream": stream, "pkg_spec": prog, "class": c}, nontrivial)
-        ctx.observe("stream", stream)
-        ctx.observe("griffe_result", obs["mro"][0] if obs["mro"][0] != "err" else "err:" + obs["mro"][1])
-        ctx.observe("n_bases", len(pb[c]))
-        repro = False
-        if mout is not None:
-            row = mout[c]
-            repro = check_program_row(ctx, case, row, obs, o, paths, n, c)
-            f2 = any(mout[k][10] for k in hierarchy_of(pb, c))
-        else:
-            f2 = any(b.get("assign") and (b.get("form") or "plain") != "plain" for k in hierarchy_of(pb, c) for b in prog["classes"][k]["bases"])
-        f1 = gap_F1(pb, orc, c)
-        ctx.observe("program_gap", ("misresolved-assignment " if f2 else "") + ("external-not-last" if f1 else "") or "none")
-        for d in details:
-            finding = None
-            if mout is None:
-                if f1 or f2:
-                    ctx.count("search_mode_skipped_in_known_gap")
-                    continue
-            elif repro and f2:
-                finding = "C07-F2"
-            elif repro and f1:
-                finding = "C07-F1"
-            fails.append((case, d, finding))
+
+    def check_tree(objs, agent, record):
+        """One tree of the package (freshly visited, reloaded from its JSON dump, merged with stubs): every class against CPython and the model."""
+        for c in range(n):
+            case = {**base_case, "class": c, "agent": agent}
+            obs = observe2(objs[c])
+            o = orc[c]
+            vis = None if o is None else {"mro": [i for i in o["mro"] if i < n], "attrs": o["attrs"]}
+            details = direct_eval(gtable, c, obs, vis)
+            if not details and o is not None and "inherited_final" in obs:
+                want_final = sorted([name, amember[owner].get(name, f"{paths[owner]}.{name}")] for name, owner in o["attrs"].items() if name not in members[c])
+                if obs["inherited_final"] != want_final:
+                    details.append({"what": "an inherited alias does not finally lead to the object CPython finds", "griffe": obs["inherited_final"], "cpython": want_final})
+            if "resolved_exc" in obs:
+                details.append({"what": "resolved_bases raised", "griffe": obs["resolved_exc"]})
+            nontrivial = len(pb[c]) >= 2 or obs["mro"][0] != "ok" or bool(obs.get("inherited"))
+            ctx.case({"stream": stream, "tree": agent, "pkg_spec": prog, "class": c}, nontrivial)
+            ctx.observe("stream", stream if agent == "visitor" else f"{stream}/{agent}")
+            if record:
+                ctx.observe("griffe_result", obs["mro"][0] if obs["mro"][0] != "err" else "err:" + obs["mro"][1])
+                ctx.observe("n_bases", len(pb[c]))
+            repro = False
+            if mout is not None:
+                row = mout[c]
+                repro = check_program_row(ctx, case, row, obs, o, paths, n, c, record)
+                f2 = any(mout[k][10] for k in hierarchy_of(pb, c))
+            else:
+                f2 = any(b.get("assign") and (b.get("form") or "plain") != "plain" for k in hierarchy_of(pb, c) for b in prog["classes"][k]["bases"])
+            f1 = gap_F1(pb, orc, c)
+            if record:
+                ctx.observe("program_gap", ("misresolved-assignment " if f2 else "") + ("external-not-last" if f1 else "") or "none")
+            for d in details:
+                finding = None
+                if mout is None:
+                    if f1 or f2:
+                        ctx.count("search_mode_skipped_in_known_gap")
+                        continue
+                elif repro and f2:
+                    finding = "C07-F2"
+                elif repro and f1:
+                    finding = "C07-F1"
+                fails.append((case, d, finding))
+
+    if "visitor" in trees:
+        check_tree(objs, "visitor", True)
+    # ---- the tree dumped to JSON and reloaded into a fresh collection (what `griffe dump` consumers query)
+    if "json" in trees:
+        for full in (False, True):
+            agent = "visitor+json" + ("-full" if full else "")
+            try:
+                with watchdog(60):
+                    reloaded = griffe.Module.from_json(loaded.as_json(full=full))
+                    col = griffe.ModulesCollection()
+                    col.set_member(pkg, reloaded)
+                    objs2 = [col[p] for p in paths]
+            except BaseException as e:  # noqa: BLE001
+                if isinstance(e, KeyboardInterrupt):
+                    raise
+                fails.append(({**base_case, "class": 0, "agent": agent}, {"what": "dumping the tree to JSON and reloading it raised", "griffe": f"{type(e).__name__}: {e}"}, None))
+                continue
+            check_tree(objs2, agent, False)
+    # ---- the same package with .pyi files next to its modules whose class statements list other bases: CPython never reads them
+    if "stubs" in trees and prog.get("stubs"):
+        stub_files = render_stubs(prog, R)
+        for rel, src in stub_files.items():
+            (root / pkg / rel).write_text(src)
+        try:
+            with watchdog(60):
+                merged = griffe.load(pkg, search_paths=[str(root)])
+                objs3 = [merged[p[len(pkg) + 1:]] for p in paths]
+        except BaseException as e:  # noqa: BLE001
+            if isinstance(e, KeyboardInterrupt):
+                raise
+            fails.append(({**base_case, "class": 0, "agent": "visitor+stubs", "stub_files": stub_files},
+                          {"what": "griffe.load raised on a package with .pyi files next to its modules", "griffe": f"{type(e).__name__}: {e}"}, None))
+            objs3 = None
+        if objs3 is not None:
+            before = len(fails)
+            check_tree(objs3, "visitor+stubs", False)
+            for k in range(before, len(fails)):
+                fails[k] = ({**fails[k][0], "stub_files": stub_files}, fails[k][1], fails[k][2])
+        for rel in stub_files:
+            (root / pkg / rel).unlink()
     # ---- the same package analysed dynamically (inspection): bases come from __bases__, not from expressions
-    if inspected and status == "ok":
+    if "inspector" in trees and inspected and status == "ok":
         fails += eval_inspected(ctx, prog, R, root, real, orc, pb, mout is not None)
     forget_modules(pkg)
     return fails
 
 
-def check_program_row(ctx, case, row, obs, o, paths, n, c):
+def render_stubs(prog, R):
+    """.pyi text for every plain module that has module-level classes: the typing / import header of the module (no wildcard), the
+    module-level classes with the same member names, and bases as stubs like to simplify them (one left out, or reordered)."""
+    out = {}
+    classes = norm_holders(prog["classes"])
+    kinds = prog.get("stubs") or []
+    for rel, src in R["files"].items():
+        if rel == "__init__.py" or not src.strip() or not rel.endswith(".py"):
+            continue
+        lines = src.split("\n")
+        head = [ln for ln in lines if (ln.startswith("from ") or ln.startswith("import ") or ln.startswith("T = ")) and not ln.endswith("import *")]
+        body = []
+        k = 0
+        while k < len(lines):
+            ln = lines[k]
+            if ln.startswith("class K"):
+                idx = int(ln[len("class K"):].split("(")[0].split(":")[0])
+                kind = kinds[idx] if idx < len(kinds) else "same"
+                bases = []
+                if "(" in ln:
+                    inner = ln[ln.index("(") + 1:ln.rindex(")")]
+                    bases = [x.strip() for x in _split_top(inner)]
+                if kind == "drop-first" and len(bases) >= 2:
+                    bases = bases[1:]
+                elif kind == "drop-last" and len(bases) >= 2:
+                    bases = bases[:-1]
+                elif kind == "reverse":
+                    bases = bases[::-1]
+                body.append(f"class K{idx}({', '.join(bases)}):" if bases else f"class K{idx}:")
+                k += 1
+                wrote = False
+                while k < len(lines) and lines[k].startswith("    "):
+                    m = lines[k].strip()
+                    if m.startswith("def "):
+                        body.append("    " + m.split(":")[0] + " -> tuple: ...")
+                        wrote = True
+                    elif " = " in m and not m.startswith("from "):
+                        body.append("    " + m.split(" = ")[0] + ": tuple")
+                        wrote = True
+                    elif m.startswith("class "):
+                        body.append("    " + m.split(":")[0] + ": ...")
+                        wrote = True
+                    k += 1
+                if not wrote:
+                    body.append("    ...")
+                continue
+            k += 1
+        if body:
+            out[rel[:-3] + ".pyi"] = "\n".join(head + [""] + body) + "\n"
+    return out
+
+
+def _split_top(text):
+    parts, depth, cur = [], 0, ""
+    for ch in text:
+        if ch == "[":
+            depth += 1
+        elif ch == "]":
+            depth -= 1
+        if ch == "," and depth == 0:
+            parts.append(cur)
+            cur = ""
+        else:
+            cur += ch
+    if cur.strip():
+        parts.append(cur)
+    return parts
+
+
+def check_program_row(ctx, case, row, obs, o, paths, n, c, record=True):
     """(C) and (O) for one class of a program; returns True when the model reproduces both Griffe's and CPython's answers."""
     ok = True
     ids = {p: i for i, p in enumerate(paths)}
@@ -1669,8 +1829,9 @@ def check_program_row(ctx, case, row, obs, o, paths, n, c):
         ok = False
         ctx.tie_failure("correspondence", "resolved_bases(model: canonical_path + get_member + final_target) vs Class.resolved_bases",
                         {"model": m_res, "impl": obs["resolved"], "per_base": row[1]}, case)
-    for r in row[1]:
-        ctx.observe("resolution_outcome", r[0] if r[0] != "found" else "found:" + r[2])
+    if record:
+        for r in row[1]:
+            ctx.observe("resolution_outcome", r[0] if r[0] != "found" else "found:" + r[2])
     g_impl = obs["mro"]
     g_ids = ["ok", [ids.get(p, -1) for p in g_impl[1]]] if g_impl[0] == "ok" else g_impl
     if row[4] != g_ids:
@@ -1833,7 +1994,14 @@ def prog_variants(prog, keep):
     cl = prog["classes"]
     n = len(cl)
     def with_classes(new, mods=None):
-        return {"pkg": prog["pkg"], "mods": list(mods if mods is not None else prog["mods"]), "classes": new}
+        out = {"pkg": prog["pkg"], "mods": list(mods if mods is not None else prog["mods"]), "classes": new}
+        if prog.get("stubs") and len(new) == n:
+            out["stubs"] = prog["stubs"]
+        return out
+    if prog.get("stubs"):
+        for k in range(n):
+            if prog["stubs"][k] != "same":
+                yield {**prog, "stubs": prog["stubs"][:k] + ["same"] + prog["stubs"][k + 1:]}, keep
     for k in reversed(range(n)):
         if k == keep:
             continue
@@ -1842,8 +2010,14 @@ def prog_variants(prog, keep):
             if i == k:
                 continue
             bs = [{**b, "b": b["b"] - 1 if b["b"] > k else b["b"]} for b in c["bases"] if b["b"] != k]
-            new.append({**c, "bases": bs})
-        yield with_classes(new), (keep - 1 if k < keep else keep)
+            c2 = {**c, "bases": bs}
+            if c.get("shadow") is not None:
+                c2["shadow"] = None if c["shadow"] == k else (c["shadow"] - 1 if c["shadow"] > k else c["shadow"])
+            new.append(c2)
+        out = with_classes(new)
+        if prog.get("stubs"):
+            out["stubs"] = prog["stubs"][:k] + prog["stubs"][k + 1:]
+        yield out, (keep - 1 if k < keep else keep)
     for i, c in enumerate(cl):
         for j in range(len(c["bases"])):
             yield with_classes([{**x, "bases": x["bases"][:j] + x["bases"][j + 1:]} if ii == i else x for ii, x in enumerate(cl)]), keep
@@ -1851,6 +2025,10 @@ def prog_variants(prog, keep):
             yield with_classes([{**x, "generic": None} if ii == i else x for ii, x in enumerate(cl)]), keep
         if c.get("object"):
             yield with_classes([{**x, "object": None} if ii == i else x for ii, x in enumerate(cl)]), keep
+        if c.get("shadow") is not None:
+            yield with_classes([{**x, "shadow": None} if ii == i else x for ii, x in enumerate(cl)]), keep
+        if c.get("hbase") is not None:
+            yield with_classes([{**x, "hbase": None} if ii == i else x for ii, x in enumerate(cl)]), keep
         if c.get("holder") is not None:
             yield with_classes([{**x, "holder": None} if ii == i else x for ii, x in enumerate(cl)]), keep
         for j, b in enumerate(c["bases"]):
@@ -1896,7 +2074,8 @@ def shrink_program_case(case, detail):
             mout = q.model([render_program(p2)["request"]])[0] if with_model else None
             if mout == ["bad-input"]:
                 return None
-            res = eval_program(q, p2, root, mout, inspected=(agent == "inspector"), stream=case.get("stream", "program"))
+            kind = "inspector" if agent == "inspector" else ("json" if "json" in (agent or "") else ("stubs" if "stubs" in (agent or "") else "visitor"))
+            res = eval_program(q, p2, root, mout, inspected=(agent == "inspector"), stream=case.get("stream", "program"), trees=(kind,))
         except Exception:  # noqa: BLE001
             return None
         for cs, d, finding in res:
